@@ -20,6 +20,11 @@ class FuncInfo:
         self.sha256 = hashlib.sha256(seg.encode()).hexdigest()
         self.is_static = any(isinstance(d, ast.Name) and d.id == 'staticmethod'
                              for d in node.decorator_list)
+        # a decorator other than these wraps the function in code that is not analysed: such a
+        # function is outside the verified subset (never verified as if the decorator were absent)
+        self.foreign_decorators = [ast.unparse(d) for d in node.decorator_list
+                                   if not (isinstance(d, ast.Name)
+                                           and d.id in ('staticmethod', 'classmethod', 'property'))]
         self.params = [a.arg for a in node.args.args]
         self.vararg = node.args.vararg.arg if node.args.vararg else None
         self.kwarg = node.args.kwarg.arg if node.args.kwarg else None
